@@ -159,6 +159,159 @@ Proof.
     lia.
 Qed.
 
+(* ---- the +2/3 majority of a reconstructed LastCommit is for the commit's own block id *)
+
+Fixpoint bsum_total (m : list (blockid * Z)) : Z :=
+  match m with [] => 0 | (_, s) :: r => s + bsum_total r end.
+
+Definition bsum_nonneg (m : list (blockid * Z)) : Prop := Forall (fun p => 0 <= snd p) m.
+
+Lemma bsum_total_add : forall m b x, bsum_total (bsum_add m b x) = bsum_total m + x.
+Proof.
+  induction m as [|[b0 s] m IH]; intros b x; cbn [bsum_add bsum_total]; [lia|].
+  destruct (b0 =? b); cbn [bsum_total]; [lia | rewrite IH; lia].
+Qed.
+
+Lemma bsum_nonneg_add : forall m b x, bsum_nonneg m -> 0 <= x -> bsum_nonneg (bsum_add m b x).
+Proof.
+  induction m as [|[b0 s] m IH]; intros b x Hm Hx; cbn [bsum_add].
+  - constructor; [cbn; lia | constructor].
+  - inversion Hm as [|? ? H1 H2]; subst. cbn [snd] in H1.
+    destruct (b0 =? b); constructor; cbn [snd]; try lia; try assumption. apply IH; assumption.
+Qed.
+
+Lemma bsum_get_le_total : forall m b, bsum_nonneg m -> 0 <= bsum_get m b <= bsum_total m.
+Proof.
+  induction m as [|[b0 s] m IH]; intros b Hm; cbn [bsum_get bsum_total]; [lia|].
+  inversion Hm as [|? ? H1 H2]; subst. cbn [snd] in H1. specialize (IH b H2).
+  destruct (b0 =? b); lia.
+Qed.
+
+Lemma bsum_two_le_total : forall m b b', bsum_nonneg m -> b <> b' ->
+  bsum_get m b + bsum_get m b' <= bsum_total m.
+Proof.
+  induction m as [|[b0 s] m IH]; intros b b' Hm Hne; cbn [bsum_get bsum_total]; [lia|].
+  inversion Hm as [|? ? H1 H2]; subst. cbn [snd] in H1.
+  pose proof (bsum_get_le_total m b H2). pose proof (bsum_get_le_total m b' H2).
+  specialize (IH b b' H2 Hne).
+  destruct (Z.eqb_spec b0 b); destruct (Z.eqb_spec b0 b'); lia.
+Qed.
+
+Definition maj_sound (q : Z) (pre : list validator) (vs : voteset) : Prop :=
+  bsum_nonneg (vs_bsum vs) /\ bsum_total (vs_bsum vs) <= sum_power pre /\
+  (forall b, vs_maj23 vs = Some b -> q <= bsum_get (vs_bsum vs) b).
+
+Lemma sum_power_app : forall a b, sum_power (a ++ b) = sum_power a + sum_power b.
+Proof. induction a as [|v a IH]; intros b; cbn [app sum_power]; [lia | rewrite IH; lia]. Qed.
+
+Lemma ctv_loop_maj_sound : forall chain (c : commit sig) total sigs pre vsuf vs vs',
+  total_voting_power (pre ++ vsuf) = Some total ->
+  length vsuf = length sigs -> nonneg vsuf ->
+  maj_sound (Z.quot (total * 2) 3 + 1) pre vs ->
+  ctv_loop' chain c (pre ++ vsuf) sigs (Z.of_nat (length pre)) vs = Some vs' ->
+  maj_sound (Z.quot (total * 2) 3 + 1) (pre ++ vsuf) vs'.
+Proof.
+  intros chain c total sigs. induction sigs as [|cs sigs IH]; intros pre vsuf vs vs' Ht Hl Hnn Hm Hrun.
+  - destruct vsuf; [|discriminate]. cbn [ctv_loop] in Hrun. injection Hrun as <-. rewrite app_nil_r. exact Hm.
+  - destruct vsuf as [|v vsuf]; [discriminate|]. cbn [length] in Hl. injection Hl as Hl.
+    inversion Hnn as [|? ? Hv Hnn']; subst.
+    assert (Epre : pre ++ v :: vsuf = (pre ++ [v]) ++ vsuf) by (rewrite <- app_assoc; reflexivity).
+    assert (Elen : Z.of_nat (length pre) + 1 = Z.of_nat (length (pre ++ [v])))
+      by (rewrite app_length; cbn [length]; lia).
+    destruct Hm as [M1 [M2 M3]].
+    cbn [ctv_loop] in Hrun. destruct (cs_absent cs).
+    + rewrite Epre, Elen in Hrun. rewrite Epre. apply (IH (pre ++ [v]) vsuf vs vs'); try assumption.
+      * rewrite <- Epre. exact Ht.
+      * split; [exact M1|]. split; [|exact M3]. rewrite sum_power_app. cbn [sum_power]. lia.
+    + destruct (cs_block_id cs (c_bid c)) as [b|]; [|discriminate].
+      destruct (add_vote' chain (c_height c) (c_round c) (pre ++ v :: vsuf) vs (Z.of_nat (length pre)) cs b)
+        as [vs1|] eqn:Eadd; [|discriminate].
+      rewrite Epre, Elen in Hrun. rewrite Epre. apply (IH (pre ++ [v]) vsuf vs1 vs'); try assumption.
+      * rewrite <- Epre. exact Ht.
+      * (* the step of add_vote *)
+        unfold add_vote in Eadd.
+        destruct (Z.of_nat (length pre) <? 0); [discriminate|].
+        destruct (cs_addr cs =? 0); [discriminate|]. rewrite Nat2Z.id in Eadd.
+        assert (Hnth : nth_error (pre ++ v :: vsuf) (length pre) = Some v).
+        { rewrite nth_error_app2 by lia. rewrite Nat.sub_diag. reflexivity. }
+        rewrite Hnth in Eadd.
+        destruct (negb (cs_addr cs =? v_addr v)); [discriminate|].
+        destruct (existsb _ _); [discriminate|].
+        destruct (negb (pk_addr (v_key v) =? cs_addr cs)); [discriminate|].
+        destruct (negb (sv _ _ _)); [discriminate|].
+        rewrite Ht in Eadd. injection Eadd as <-.
+        set (q := Z.quot (total * 2) 3 + 1) in *.
+        split; [|split]; cbn [vs_bsum vs_maj23].
+        -- apply bsum_nonneg_add; assumption.
+        -- rewrite bsum_total_add, sum_power_app. cbn [sum_power]. lia.
+        -- intros b' Hb'. rewrite bsum_get_add.
+           destruct ((bsum_get (vs_bsum vs) b <? q) && (q <=? bsum_get (vs_bsum vs) b + v_power v)) eqn:Ecross.
+           ++ destruct (vs_maj23 vs) as [b0|] eqn:Emj.
+              ** injection Hb' as <-. specialize (M3 _ eq_refl). destruct (b =? b0); lia.
+              ** injection Hb' as <-. rewrite Z.eqb_refl. apply andb_true_iff in Ecross as [_ Ec]. lia.
+           ++ specialize (M3 _ Hb'). destruct (b =? b'); lia.
+Qed.
+
+(* a vote set made from a commit whose for-the-block slots carry more than 2/3: if it has a
+   majority at all, it is for the commit's block id *)
+Lemma ctv_maj_is_commit_bid : forall chain (c : commit sig) vals vs b,
+  wf_valset vals -> length vals = length (c_sigs c) ->
+  commit_to_voteset sv pk_addr chain c vals = Some vs ->
+  3 * bsum_get (vs_bsum vs) (c_bid c) > 2 * sum_power vals ->
+  vs_maj23 vs = Some b -> b = c_bid c.
+Proof.
+  intros chain c vals vs b Hwf Hl Hctv Hq Hb.
+  unfold commit_to_voteset in Hctv. destruct (c_height c =? 0); [discriminate|].
+  pose proof (total_voting_power_wf vals Hwf) as Htot. destruct Hwf as [Hnn Hle].
+  pose proof (ctv_loop_maj_sound chain c (sum_power vals) (c_sigs c) [] vals empty_voteset vs) as H.
+  cbn [app length Z.of_nat] in H. specialize (H Htot Hl Hnn).
+  assert (H0 : maj_sound (Z.quot (sum_power vals * 2) 3 + 1) [] empty_voteset).
+  { split; [constructor|]. split; [cbn; lia|]. cbn. discriminate. }
+  destruct (H H0 Hctv) as [M1 [M2 M3]]. specialize (M3 _ Hb).
+  destruct (Z.eq_dec b (c_bid c)) as [E|E]; [exact E|]. exfalso.
+  pose proof (bsum_two_le_total _ _ _ M1 E) as H2.
+  pose proof (sum_power_nonneg vals Hnn) as Hp.
+  rewrite Z.quot_div_nonneg in M3 by lia.
+  assert (3 * bsum_get (vs_bsum vs) b > 2 * sum_power vals).
+  { pose proof (Z.mul_div_le (sum_power vals * 2) 3 ltac:(lia)).
+    pose proof (Z.mod_pos_bound (sum_power vals * 2) 3 ltac:(lia)).
+    pose proof (Z.div_mod (sum_power vals * 2) 3 ltac:(lia)). lia. }
+  lia.
+Qed.
+
+(* the vote set consensus rebuilds from a commit that passed the full verification for block id
+   [bid] has its +2/3 majority for exactly [bid] *)
+Lemma reconstruct_maj_bid : forall chain (c : commit sig) vals bid h vs,
+  wf_valset vals -> keys_ok vals -> 0 < h ->
+  verify_commit sv vals chain bid h c = R_ok ->
+  addrs_ok vals (c_sigs c) ->
+  commit_to_voteset' chain c vals = Some vs ->
+  vs_maj23 vs = Some bid.
+Proof.
+  intros chain c vals bid h vs Hwf Hk Hh Hv Ha Hctv.
+  pose proof Hv as Hv'.
+  apply (verify_commit_iff sig sv vals chain bid h c Hwf) in Hv' as [Hl [Eh [Eb [Hs Ht]]]].
+  pose proof (total_voting_power_wf vals Hwf) as Htot.
+  assert (Hnn : nonneg vals) by (destruct Hwf; assumption).
+  (* the run of ctv_loop behind Hctv *)
+  pose proof Hctv as Hrun. unfold commit_to_voteset in Hrun.
+  assert (Hh0 : (c_height c =? 0) = false) by lia. rewrite Hh0 in Hrun.
+  destruct (ctv_loop_ok chain c (sum_power vals) (c_sigs c) [] vals empty_voteset) as [vs' [E1 [E2 [E3 _]]]];
+    try assumption.
+  - constructor.
+  - unfold maj_inv. cbn. intros _ b. pose proof (sum_power_nonneg vals Hnn) as H0.
+    pose proof (quot_nonneg (sum_power vals * 2) 3 ltac:(lia) ltac:(lia)). lia.
+  - cbn [app length Z.of_nat] in E1. rewrite E1 in Hrun. injection Hrun as ->.
+    cbn [empty_voteset vs_bsum bsum_get] in E3.
+    assert (Hq : 3 * bsum_get (vs_bsum vs) (c_bid c) > 2 * sum_power vals) by lia.
+    destruct (vs_maj23 vs) as [b|] eqn:Em.
+    + rewrite (ctv_maj_is_commit_bid chain c vals vs b Hwf Hl Hctv Hq Em). congruence.
+    + exfalso. specialize (E2 Em (c_bid c)).
+      pose proof (sum_power_nonneg vals Hnn) as H0.
+      assert (block_tally sig vals (c_sigs c) > Z.quot (sum_power vals * 2) 3) by (apply gt_quot_iff; lia).
+      lia.
+Qed.
+
 (* ================================================================== the sync step *)
 
 (* what a sound commit check guarantees (C07: both verify_commit and verify_commit_light) *)
